@@ -6,6 +6,10 @@ from typing import Optional, Tuple
 from xml.etree.ElementTree import Element
 
 
+# default for find_child's *id*: distinguishes "no ID given" from a blank ID (None)
+_ANY = object()
+
+
 def remove_node(parent: Element, node: Element):
     """
     Remove *node* from *parent*.
@@ -38,18 +42,18 @@ def append_node(parent, node):
 def find_child(
         parent: Element,
         child_tag: str,
-        id: Optional[str] = None
+        id: Optional[str] = _ANY
     ) -> Tuple[Optional[Element], Optional[int]]:
     """
     Find an element with *child_tag* in *parent* and return ``(child, index)``
     or ``(None, None)`` if not found. If *id* is provided, it will be searched
-    for, otherwise the first child will be returned.
+    for, otherwise the first child will be returned. An *id* of ``None`` (a
+    blank reference) matches nothing.
     """
     for i, child in enumerate(parent):
         if child.tag == child_tag:
-            if id is None:
+            if id is _ANY:
                 return (child, i)
-            child_id = child.find(f'{child_tag}ID').text
-            if child_id == id:
+            if id is not None and child.find(f'{child_tag}ID').text == id:
                 return (child, i)
     return (None, None)
